@@ -38,12 +38,13 @@ Inductive mlp_meth :=
 
 Definition node_choices : list Z := [16; 32; 64].
 
-(* hidden_layer / numb_new_nodes as the code resolves them; draws are consumed in program order *)
+(* hidden_layer / numb_new_nodes as the code resolves them; r1 feeds np.random.randint (layer index),
+   r2 feeds np.random.choice (amount): the two draws are independent, their program order does not matter *)
 Definition mlp_node_args (h : list Z) (hl nn : option Z) (r1 r2 : Z) : Z * Z :=
   match hl, nn with
   | None, None => (pick 0 (zlen h) r1, choose node_choices r2)
   | None, Some n => (pick 0 (zlen h) r1, n)
-  | Some l, None => (Z.min l (zlen h - 1), choose node_choices r1)
+  | Some l, None => (Z.min l (zlen h - 1), choose node_choices r2)
   | Some l, Some n => (Z.min l (zlen h - 1), n)
   end.
 
